@@ -345,3 +345,15 @@ Proof.
   destruct H as [_ H]. exact H.
 Qed.
 Print Assumptions nested_correct.
+
+(* what a closed program hands back is a plain number: no tracer object of any
+   (finished) trace survives in it *)
+Theorem closed_result_is_plain fuel e s :
+  prims_ok e = true -> -1 <= top Z s -> calmz s -> store Z s = [] ->
+  forall v, fst (zev fuel [] e s) = Val v -> exists k, v = VN k.
+Proof.
+  intros Hf Ht Hc Hst v Hv.
+  assert (Hi : SInv (store Z s)) by (rewrite Hst; intros idx nd H; destruct idx; discriminate).
+  pose proof (meval fuel e [] [] s Hf I (fun u H => match H with end) Ht Hc Hi (Forall_nil _)) as (_ & _ & _ & H).
+  rewrite Hv in H. destruct H as [Hw _]. destruct v as [k|t i nd]; [eauto|destruct Hw].
+Qed.
